@@ -201,7 +201,9 @@ def df_form(case):
     return int(case["DF"]) if case.get("DF_int") else case["DF"]
 
 
-def run_mpe(case):
+def run_mpe(case, positional=True):
+    """one FDD_mpe call: fully positional in the parameter order of the pristine signature
+    FDD_mpe(Sval, Svec, freq, sel_freq, DF) - written out here, never read from the tree under test - or fully by keyword."""
     freq = np.array(case["freq"], float)
     Sval = np.array(case["Sval"], float)
     Svec = np.array([[[complex(z[0], z[1]) for z in ln] for ln in row] for row in case["Svec"]])
@@ -211,7 +213,10 @@ def run_mpe(case):
         for a in (freq, Sval, Svec) + ((sel,) if isinstance(sel, np.ndarray) else ()):
             a.setflags(write=False)
     try:
-        Fn, Phi = fdd.FDD_mpe(Sval, Svec, freq, sel, DF=df_form(case))
+        if positional:
+            Fn, Phi = fdd.FDD_mpe(Sval, Svec, freq, sel, df_form(case))
+        else:
+            Fn, Phi = fdd.FDD_mpe(DF=df_form(case), sel_freq=sel, freq=freq, Svec=Svec, Sval=Sval)
         out = (None, np.asarray(Fn), np.asarray(Phi))
     except Exception as e:  # noqa: BLE001
         out = (type(e).__name__, None, None)
@@ -235,6 +240,13 @@ def judge_mpe(ctx, case, model_s, site="FDD_mpe"):
     if changed:
         ctx.fail("oracle", "%s modifies its argument(s) %s in place (the stored tables are no longer the decomposition of Sy)" % (site, changed), small,
                  key="C06:%s:args-mutated" % site)
+    # the call judged here is the fully positional one; the same values by keyword must give the same outcome, bit for bit
+    kexc, kFn, kPhi, _ = run_mpe(case, positional=False)
+    if kexc != exc or (exc is None and (kFn.shape != Fn.shape or kPhi.shape != Phi.shape or not np.array_equal(kFn, Fn, equal_nan=True)
+                                        or not np.array_equal(kPhi, Phi, equal_nan=True))):
+        ctx.fail("oracle", "%s(Sval, Svec, freq, sel_freq, DF) called positionally in the documented parameter order %s, called with the same values by keyword %s"
+                 % (site, "raises " + exc if exc else "gives Fn %s" % Fn.tolist(), "raises " + kexc if kexc else "gives Fn %s" % kFn.tolist()),
+                 small, key="C06:%s:positional-call" % site)
     nontriv = False
     # ---- correspondence
     if merr == "NoModel":
@@ -426,6 +438,14 @@ def part_B(ctx):
         except Exception as e:  # noqa: BLE001
             ctx.fail("oracle", "SD_svalsvec raises %s on a %dx%d spectral matrix" % (type(e).__name__, nr, nc), case, key="C06:SD_svalsvec:raise")
             continue
+        try:    # pristine signature SD_svalsvec(SD): the call above is the positional one, this is the keyword one
+            kS_val, kS_vec = fdd.SD_svalsvec(SD=SD.copy())
+            kdiff = not (np.array_equal(np.asarray(kS_val), np.asarray(S_val)) and np.array_equal(np.asarray(kS_vec), np.asarray(S_vec)))
+        except Exception:  # noqa: BLE001
+            kdiff = True
+        if kdiff:
+            ctx.fail("oracle", "SD_svalsvec(SD) called positionally and SD_svalsvec(SD=...) called by keyword on the same matrices do not give the same stored pair",
+                     case, key="C06:SD_svalsvec:positional-call")
         ctx.count(case, nontrivial=True)
         ctx.sample(dict(kind="svalsvec", shape=list(SD.shape), hermitian=herm))
         sv = faithful(ctx, SD, np.asarray(S_val), np.asarray(S_vec), case, "SD_svalsvec")
@@ -1146,7 +1166,7 @@ class _ScriptedPicks:
         self.result = (self.sel_freq, None)
 
 
-def run_params_ok(ctx, alg, want, case, site):
+def run_params_ok(ctx, alg, want, case, site, key=None):
     """run_params reflect the arguments of the call just made."""
     rp = alg.run_params
     for name, val in want.items():
@@ -1154,7 +1174,7 @@ def run_params_ok(ctx, alg, want, case, site):
         same = (got is not None and len(got) == len(val) and all(float(a) == float(b) for a, b in zip(got, val))) if isinstance(val, list) \
             else (got is not None and float(got) == float(val))
         if not same:
-            ctx.fail("oracle", "%s: run_params.%s = %r after a call made with %s = %r" % (site, name, got, name, val), case, key="C06:%s:run_params" % site)
+            ctx.fail("oracle", "%s: run_params.%s = %r after a call made with %s = %r" % (site, name, got, name, val), case, key=key or "C06:%s:run_params" % site)
 
 
 def part_C_plot(ctx, corpus_specs=()):
@@ -1457,6 +1477,205 @@ def part_C_constant(ctx, corpus_specs=()):
 
 
 # ----------------------------------------------------------------------------------------------------------------------
+# P. positional call forms.  The parameter orders below are those of the PRISTINE signatures, written out here on
+# purpose: they are never read from the tree under test (a changed tree must not redefine the documented order).
+#   fdd.SD_est(Yall, Yref, dt, nxseg, method, pov)        fdd.SD_svalsvec(SD)        fdd.FDD_mpe(Sval, Svec, freq, sel_freq, DF)
+#   fdd.EFDD_mpe(Sy, freq, dt, sel_freq, methodSy, method, DF1, DF2, cm, MAClim, sppk, npmax)
+#   SingleSetup(data, fs)        MultiSetup_PreGER(fs, ref_ind, datasets)        setup.run_by_name(name)
+#   setup.mpe(name, <the algorithm's mpe parameters>)        setup.mpe_from_plot(name, <the algorithm's mpe_from_plot parameters>)
+#   FDD.mpe(sel_freq, DF)        FDD.mpe_from_plot(freqlim, DF)                                  (FDD_MS inherits both)
+#   EFDD.mpe(sel_freq, DF1, DF2, cm, MAClim, sppk, npmax)
+#   EFDD.mpe_from_plot(DF1, DF2, cm, MAClim, sppk, npmax, freqlim)                               (FSDD, EFDD_MS inherit both)
+# Every value is non-default and differs from its neighbours (defaults: DF 0.1, DF1 0.1, DF2 1.0, cm 1, MAClim 0.85,
+# sppk 3, npmax 20, method "FSDD", freqlim None; SD_est: nxseg 1024, method "cor", pov 0.5).
+POS_STAGE2 = (1.25, 2, 0.6, 1, 5)                        # DF2, cm, MAClim, sppk, npmax
+POS_STAGE2_NAMES = ("DF2", "cm", "MAClim", "sppk", "npmax")
+POS_FREQLIM = (1.0, 14.0)
+
+
+def both_forms(ctx, entry, order, kw_call, pos_call, arrays, case, tol=0.0):
+    """the same call by keyword and fully positionally: the positional one must return, with the keyword call's answer.
+    Returns the positional call's value (to be judged by the property's oracle) or None."""
+    try:
+        rk = kw_call()
+    except Exception as e:  # noqa: BLE001
+        ctx.not_judged += 1     # judged elsewhere (plain FDD) or the second stage (C07) cannot fit
+        ctx.hist("positional", (entry, "keyword call raises %s: not judged" % type(e).__name__))
+        return None
+    try:
+        rp = pos_call()
+    except Exception as e:  # noqa: BLE001
+        ctx.fail("oracle", "%s: the positional call in the documented order %s raises %s where the keyword call with the same values returns"
+                 % (entry, order, type(e).__name__), dict(case, entry=entry), key="C06:%s:positional-call" % entry)
+        return None
+    bad = []
+    for i, (a, b) in enumerate(zip(arrays(rk), arrays(rp))):
+        a, b = np.asarray(a), np.asarray(b)
+        if a.shape != b.shape or not (np.array_equal(a, b, equal_nan=True) if tol == 0.0 else bool(np.abs(a - b).max() <= tol)):
+            bad.append(i)
+    ctx.count(dict(case, entry=entry), nontrivial=True)
+    ctx.hist("positional", (entry, "both forms return"))
+    if bad:
+        ctx.fail("oracle", "%s: the positional call in the documented order %s does not give the keyword call's answer (outputs %s differ): "
+                 "its values are bound to other parameters" % (entry, order, bad), dict(case, entry=entry), key="C06:%s:positional-call" % entry)
+    return rp
+
+
+def part_positional(ctx, corpus_specs=()):
+    """every public entry point this check drives, called by keyword and fully positionally (see the table above):
+    same answer, and the property's oracle on the positional call's answer."""
+    from types import SimpleNamespace
+
+    import pyoma2.algorithms.fdd as alg_mod
+    import pyoma2.support.sel_from_plot as sfp_mod
+    from pyoma2.algorithms import EFDD, EFDD_MS, FDD, FDD_MS, FSDD
+    from pyoma2.setup import MultiSetup_PreGER, SingleSetup
+
+    rng = ctx.np_rng
+    fs = 32.0
+    dt = 1 / fs
+    saved = (alg_mod.SelFromPlot, sfp_mod.SelFromPlot)
+    alg_mod.SelFromPlot = _ScriptedPicks
+    sfp_mod.SelFromPlot = _ScriptedPicks
+
+    def one(spec):
+        g = np.random.default_rng(int(spec["seed"]))
+        nch, nxseg, method = int(spec["nch"]), int(spec["nxseg"]), spec["method"]
+        df = fs / nxseg
+        modes = [float(m) for m in spec["modes"]]
+        shp = dy_c(g, (len(modes), 5), 8, 8.0)
+        shp[:, 0] = 1.0
+        x = record(g, 2048, fs, shp[:, :nch], modes, 0.3)
+        sel = [m + o * df for m, o in zip(modes, spec["sel_offset_lines"])]       # grid lines, 1-2 lines off the peaks
+        DF = float(spec["DF_lines"]) * df                                            # >= 0.5: far from the default 0.1
+        sel_b, DF_b = [sel[-1]], DF + df                                             # a second call with other arguments
+        base = dict(spec, kind="positional", fs=fs, sel=sel, DF=DF)
+
+        # ---- the functions: SD_est -> SD_svalsvec -> FDD_mpe (square and rectangular spectral matrices), EFDD_mpe
+        Y = np.ascontiguousarray(x.T)
+        for Yref, tag in ((Y, "square"), (Y[:2].copy(), "rect")):
+            case = dict(base, pipeline=tag)
+            r = both_forms(ctx, "SD_est", "(Yall, Yref, dt, nxseg, method, pov)",
+                           lambda: fdd.SD_est(pov=0.25, method="per", nxseg=nxseg, dt=dt, Yref=Yref, Yall=Y),
+                           lambda: fdd.SD_est(Y, Yref, dt, nxseg, "per", 0.25), lambda o: [o[0], o[1]], case)
+            if r is None:
+                continue
+            freq, Sy = np.asarray(r[0]), np.asarray(r[1])
+            r = both_forms(ctx, "SD_svalsvec", "(SD)", lambda: fdd.SD_svalsvec(SD=Sy), lambda: fdd.SD_svalsvec(Sy), lambda o: [o[0], o[1]], case)
+            if r is None:
+                continue
+            S_val, S_vec = np.asarray(r[0]), np.asarray(r[1])
+            r = both_forms(ctx, "FDD_mpe", "(Sval, Svec, freq, sel_freq, DF)",
+                           lambda: fdd.FDD_mpe(DF=DF, sel_freq=list(sel), freq=freq, Svec=S_vec, Sval=S_val),
+                           lambda: fdd.FDD_mpe(S_val, S_vec, freq, list(sel), DF), lambda o: [o[0], o[1]], case)
+            if r is not None:
+                class_oracle(ctx, SimpleNamespace(Sy=Sy, freq=freq, Fn=np.asarray(r[0]), Phi=np.asarray(r[1]), S_val=S_val, S_vec=S_vec), sel, DF,
+                             dict(case, entry="FDD_mpe"), "FDD_mpe")
+            if tag != "square":
+                continue
+            if method == "cor":     # the estimator the classes below use, so that methodSy is exercised with both values
+                freq, Sy = (np.asarray(v) for v in fdd.SD_est(Y, Y, dt, nxseg, "cor", 0.5))
+            for meth in ("EFDD", "FSDD"):
+                r = both_forms(ctx, "EFDD_mpe", "(Sy, freq, dt, sel_freq, methodSy, method, DF1, DF2, cm, MAClim, sppk, npmax)",
+                               lambda: fdd.EFDD_mpe(npmax=POS_STAGE2[4], sppk=POS_STAGE2[3], MAClim=POS_STAGE2[2], cm=POS_STAGE2[1], DF2=POS_STAGE2[0], DF1=DF,
+                                                    method=meth, methodSy=method, sel_freq=list(sel), dt=dt, freq=freq, Sy=Sy),
+                               lambda: fdd.EFDD_mpe(Sy, freq, dt, list(sel), method, meth, DF, *POS_STAGE2), lambda o: [o[0], o[1], o[2]], dict(case, method_mpe=meth))
+                if r is not None:
+                    class_oracle(ctx, SimpleNamespace(Sy=Sy, freq=freq, Fn=None, Phi=np.asarray(r[2]), S_val=None, S_vec=None), sel, DF,
+                                 dict(case, entry="EFDD_mpe", method_mpe=meth), "EFDD_mpe", fn_on_grid=False, check_faithful=False)
+
+        # ---- the classes through the setups
+        datasets = [record(g, 2048, fs, shp[:, cols], modes, 0.3) for cols in ([0, 1, 2], [0, 1, 3, 4])]
+        ref_ind = [[0, 1], [0, 1]]
+        for cls, name, multi in ((FDD, "FDD", False), (EFDD, "EFDD", False), (FSDD, "FSDD", False), (FDD_MS, "FDD_MS", True), (EFDD_MS, "EFDD_MS", True)):
+            plain = cls in (FDD, FDD_MS)
+            case = dict(base, cls=name)
+            res_of = (lambda o: [o[1].result.Fn, o[1].result.Phi]) if plain else (lambda o: [o[1].result.Fn, o[1].result.Xi, o[1].result.Phi])
+
+            def build(positional):
+                if multi and positional:
+                    st = MultiSetup_PreGER(fs, [list(r) for r in ref_ind], [d.copy() for d in datasets])
+                elif multi:
+                    st = MultiSetup_PreGER(datasets=[d.copy() for d in datasets], ref_ind=[list(r) for r in ref_ind], fs=fs)
+                else:
+                    st = SingleSetup(x.copy(), fs) if positional else SingleSetup(fs=fs, data=x.copy())
+                al = cls(name="a", nxseg=nxseg, method_SD=method)      # run parameters: a pydantic model, keyword-only
+                st.add_algorithms(al)
+                if positional:
+                    st.run_by_name("a")
+                else:
+                    st.run_by_name(name="a")
+                return st, al
+
+            ctor = "MultiSetup_PreGER" if multi else "SingleSetup"
+            r = both_forms(ctx, ctor, "(fs, ref_ind, datasets)" if multi else "(data, fs)", lambda: build(False), lambda: build(True),
+                           lambda o: [getattr(o[1].result, k) for k in RES_FIELDS], case)
+            if r is None:
+                continue
+            st_p, al_p = r
+            st_k, al_k = build(False)
+
+            def judged(r, sel_j, DF_j, entry):
+                if r is None:
+                    return
+                want = {"DF": DF_j} if plain else dict(zip(("DF1",) + POS_STAGE2_NAMES, (DF_j,) + POS_STAGE2))
+                if "from_plot" not in entry:
+                    want["sel_freq"] = list(sel_j)
+                run_params_ok(ctx, al_p, want, dict(case, entry=entry, sel=sel_j, DF=DF_j), entry + " called positionally", key="C06:%s:positional-call" % entry)
+                class_oracle(ctx, al_p.result, sel_j, DF_j, dict(case, entry=entry, sel=sel_j, DF=DF_j), name, fn_on_grid=plain)
+
+            # setup.mpe(name, ...)
+            if plain:
+                order = "(name, sel_freq, DF)"
+                kw = lambda: (st_k.mpe(name="a", DF=DF, sel_freq=list(sel)), al_k)                                            # noqa: E731
+                ps = lambda: (st_p.mpe("a", list(sel), DF), al_p)                                                              # noqa: E731
+            else:
+                order = "(name, sel_freq, DF1, DF2, cm, MAClim, sppk, npmax)"
+                kw = lambda: (st_k.mpe(name="a", sel_freq=list(sel), DF1=DF, **dict(zip(POS_STAGE2_NAMES[::-1], POS_STAGE2[::-1]))), al_k)   # noqa: E731
+                ps = lambda: (st_p.mpe("a", list(sel), DF, *POS_STAGE2), al_p)                                                 # noqa: E731
+            judged(both_forms(ctx, name + ".mpe", order + " through the setup", kw, ps, res_of, case), sel, DF, name + ".mpe")
+            # the algorithm's own mpe(...), other arguments
+            if plain:
+                order = "(sel_freq, DF)"
+                kw = lambda: (al_k.mpe(DF=DF_b, sel_freq=list(sel_b)), al_k)                                                  # noqa: E731
+                ps = lambda: (al_p.mpe(list(sel_b), DF_b), al_p)                                                               # noqa: E731
+            else:
+                order = "(sel_freq, DF1, DF2, cm, MAClim, sppk, npmax)"
+                kw = lambda: (al_k.mpe(sel_freq=list(sel_b), DF1=DF_b, **dict(zip(POS_STAGE2_NAMES[::-1], POS_STAGE2[::-1]))), al_k)     # noqa: E731
+                ps = lambda: (al_p.mpe(list(sel_b), DF_b, *POS_STAGE2), al_p)                                                  # noqa: E731
+            judged(both_forms(ctx, name + ".mpe", order + " on the algorithm", kw, ps, res_of, dict(case, call="direct")), sel_b, DF_b, name + ".mpe")
+            # setup.mpe_from_plot(name, ...), scripted picks
+            _ScriptedPicks.picks = list(sel)
+            if plain:
+                order = "(name, freqlim, DF)"
+                kw = lambda: (st_k.mpe_from_plot(name="a", DF=DF, freqlim=POS_FREQLIM), al_k)                                 # noqa: E731
+                ps = lambda: (st_p.mpe_from_plot("a", POS_FREQLIM, DF), al_p)                                                  # noqa: E731
+            else:
+                order = "(name, DF1, DF2, cm, MAClim, sppk, npmax, freqlim)"
+                kw = lambda: (st_k.mpe_from_plot(name="a", freqlim=POS_FREQLIM, DF1=DF, **dict(zip(POS_STAGE2_NAMES[::-1], POS_STAGE2[::-1]))), al_k)  # noqa: E731
+                ps = lambda: (st_p.mpe_from_plot("a", DF, *(POS_STAGE2 + (POS_FREQLIM,))), al_p)                               # noqa: E731
+            _ScriptedPicks.calls = []
+            r = both_forms(ctx, name + ".mpe_from_plot", order + " through the setup", kw, ps, res_of, dict(case, picks=list(sel)))
+            if r is not None and _ScriptedPicks.calls and (_ScriptedPicks.calls[-1][1] is None or tuple(_ScriptedPicks.calls[-1][1]) != POS_FREQLIM):
+                ctx.fail("oracle", "%s.mpe_from_plot%s: freqlim = %r passed positionally reaches the plot as %r"
+                         % (name, order, POS_FREQLIM, _ScriptedPicks.calls[-1][1]), dict(case, entry=name + ".mpe_from_plot"),
+                         key="C06:%s.mpe_from_plot:positional-call" % name)
+            judged(r, sel, DF, name + ".mpe_from_plot")
+
+    try:
+        for spec in corpus_specs:
+            one(spec)
+        for c in range(ctx.n(2, 8)):
+            nxseg = int(rng.choice([64, 128]))
+            modes = sorted(float(v) for v in rng.choice(np.arange(3, 14), size=2, replace=False))
+            one(dict(nch=int(rng.integers(3, 5)), nxseg=nxseg, method="per" if c % 2 == 0 else "cor", modes=modes,
+                     sel_offset_lines=[int(rng.choice([-2, -1, 1, 2])) for _ in modes], DF_lines=3 if nxseg == 128 else int(rng.choice([2, 3])),
+                     seed=int(rng.integers(0, 2**31))))
+    finally:
+        alg_mod.SelFromPlot, sfp_mod.SelFromPlot = saved
+
+
+# ----------------------------------------------------------------------------------------------------------------------
 def run(ctx):
     rng = ctx.np_rng
     # at most three recorded failures per key, so that one flooding site cannot hide the other sites' failing inputs
@@ -1493,6 +1712,7 @@ def run(ctx):
     corpus_dtype = [c for c in cases[:ncorp] if c and c.get("kind") == "svalsvec-dtype"]
     corpus_refill = [c for c in cases[:ncorp] if c and c.get("kind") == "refill"]
     corpus_const = [c for c in cases[:ncorp] if c and c.get("kind") == "constant-channels"]
+    corpus_pos = [c for c in cases[:ncorp] if c and c.get("kind") == "positional"]
     ncorp = len([c for c in cases[:ncorp] if c and "freq" in c])
     cases = [c for c in cases if c and "freq" in c]
     # scale families: base table (sigma1 peaks away from the ratio peak, no ties) and the same table times 2^k
@@ -1577,3 +1797,5 @@ def run(ctx):
     part_C_refill(ctx, corpus_refill)
     part_C_constant(ctx, corpus_const)
     ctx.extra["t_ABC"] = round(time.time() - ctx.t0, 1)
+    part_positional(ctx, corpus_pos)
+    ctx.extra["t_ABCP"] = round(time.time() - ctx.t0, 1)
